@@ -113,6 +113,19 @@ Theorem C06_markers_byte_loop_is_instance_loop :
   mb_agree ismark t (mbrun ismark test fuel k t s log) (run test fuel k (marks ismark t) s log).
 Proof. intros ismark test n. exact (mbrun_is_run ismark test n). Qed.
 
+(* ... and from the cursor LineMarkersPass.new creates (where that hypothesis holds) the whole byte-level run agrees with
+   the instance-level reduction of the marker list. *)
+Theorem C06_markers_byte_reduction_is_instance_reduction :
+  forall (ismark : text -> bool) (test : nat -> list text -> bst -> bool) (t : text),
+  mb_agree ismark t (mbreduce ismark test t) (reduce test (marks ismark t)).
+Proof. exact mbreduce_is_reduce. Qed.
+
+Example C06_example_markers_run :
+  let ism := fun l => N.eqb (hd 0%N l) 35 in
+  mbreduce ism (ok_mono (fun l => N.eqb (nth 1 l 0%N) 50)) [35;49;10;120;10;35;50;10;35;51;10;121]%N
+  = Some ([120;10;35;50;10;121]%N, [(0,3,3,false);(0,1,3,true);(0,1,2,false);(1,2,2,true)]).
+Proof. vm_compute. reflexivity. Qed.
+
 Example C06_example_lines :
   lines (lines_transform [97;10;98;10;10;99]%N 1 3) = [[97;10];[99]]%N /\
   filter (fun l => N.eqb (hd 0%N l) 35) (lines (markers_transform (fun l => N.eqb (hd 0%N l) 35) [35;10;98;10;35;49;10;35]%N 1 2))
